@@ -1,5 +1,166 @@
-/- C10 — property theorems (to be written). -/
-import SoundeventModel.Basic
+/-
+  C10 — Crowsetta conversions preserve times, frequencies, labels and order.
+  Property theorems only (helper lemmas live in Proofs/Lemmas/Crowsetta.lean).
+-/
+import SoundeventModel.Crowsetta
+import Proofs.Lemmas.Crowsetta
 namespace SE.Proofs.C10
+open SE SE.Crowsetta SE.Proofs.Lemmas.Crowsetta
+
+/-! ## import: the expansion factor is applied exactly once -/
+
+/-- from seconds: the time of an imported segment is `onset / te`, `offset / te`
+    (for `te = 1` that is the value itself); no hypothesis on `te` -/
+theorem C10_import_once_seconds (a b : Rat) (ns ne : Option Rat) (sr te : Rat) :
+    segTimes (some a) (some b) ns ne sr te true = some (a / te, b / te) := by
+  unfold segTimes fileTime adjTime
+  by_cases h : te = 1
+  · subst h; simp; constructor <;> grind
+  · simp [h]
+
+/-- from sample indices: `sample / samplerate`, whatever the expansion factor — the division by
+    `samplerate / te` and the later division by `te` cancel -/
+theorem C10_import_once_samples (n m sr te : Rat) (hte : te ≠ 0) :
+    segTimes none none (some n) (some m) sr te true = some (n / sr, m / sr) := by
+  unfold segTimes fileTime adjTime
+  by_cases h : te = 1
+  · subst h; simp; constructor <;> grind
+  · simp [h]; constructor <;> grind
+
+/-- each end separately (any mixture of seconds and samples) -/
+theorem C10_import_once_end (sec sample : Option Rat) (sr te : Rat) (hte : te ≠ 0) :
+    (fileTime sec sample sr te).map (adjTime true te) =
+      match sec, sample with
+      | some s, _ => some (s / te)
+      | none, some n => some (n / sr)
+      | none, none => none := by
+  unfold fileTime adjTime
+  by_cases h : te = 1
+  · subst h; cases sec <;> cases sample <;> simp <;> grind
+  · cases sec <;> cases sample <;> simp [h]; grind
+
+/-- boxes: times divided, frequencies multiplied, once -/
+theorem C10_import_once_box (onset offset low high te : Rat) :
+    boxCoords onset offset low high te true = (onset / te, low * te, offset / te, high * te) := by
+  unfold boxCoords adjTime adjFreq
+  by_cases h : te = 1
+  · subst h; simp; constructor <;> grind
+  · simp [h]
+
+/-- without adjustment nothing is scaled: seconds and box coordinates are copied, sample indices
+    become file time `sample / (samplerate / te)` -/
+theorem C10_import_unadjusted (a b n m onset offset low high sr te : Rat) :
+    segTimes (some a) (some b) none none sr te false = some (a, b) ∧
+    segTimes none none (some n) (some m) sr te false = some (n / (sr / te), m / (sr / te)) ∧
+    boxCoords onset offset low high te false = (onset, low, offset, high) := by
+  simp [segTimes, fileTime, adjTime, boxCoords, adjFreq]
+
+/-- a recording without time expansion: seconds are copied whatever `adjust` says -/
+theorem C10_import_no_expansion (a b : Rat) (ns ne : Option Rat) (sr : Rat) (adjust : Bool) :
+    segTimes (some a) (some b) ns ne sr 1 adjust = some (a, b) := by
+  simp [segTimes, fileTime, adjTime]
+
+/-- `segment_to_annotation` succeeds exactly when both ends are known, the interval is a valid
+    `TimeInterval` and the label converts; the geometry is the interval of `segTimes` -/
+theorem C10_import_segment_geometry (o : LabelOpts) (adjust : Bool) (r : Rec) (s : Segment) (a : Ann) :
+    importSegment o adjust r s = .ok a ↔
+      ∃ st en, segTimes s.onsetS s.offsetS (s.onsetSample.map ratOfInt) (s.offsetSample.map ratOfInt)
+          r.samplerate r.te adjust = some (st, en) ∧ 0 ≤ st ∧ st ≤ en ∧
+        a.geom = some (.timeInterval st en) ∧ labelToTags o s.label = .ok a.tags := by
+  unfold importSegment
+  cases hs : segTimes s.onsetS s.offsetS (s.onsetSample.map ratOfInt) (s.offsetSample.map ratOfInt)
+      r.samplerate r.te adjust with
+  | none => simp
+  | some p =>
+    obtain ⟨st, en⟩ := p
+    simp only [mkInterval, Option.some.injEq, Prod.mk.injEq]
+    by_cases hv : st > en ∨ st < 0 ∨ en < 0
+    · simp only [hv, if_true, bind, Except.bind]
+      constructor
+      · intro h; cases h
+      · rintro ⟨st', en', ⟨rfl, rfl⟩, h0, h1, _⟩; exfalso; grind
+    · simp only [hv, if_false, bind, Except.bind]
+      cases hl : labelToTags o s.label with
+      | error e => simp
+      | ok tags =>
+        simp only [pure, Except.pure, Except.ok.injEq]
+        constructor
+        · rintro rfl; exact ⟨st, en, ⟨rfl, rfl⟩, by grind, by grind, rfl, rfl⟩
+        · rintro ⟨st', en', ⟨rfl, rfl⟩, _, _, hg, ht⟩
+          cases a; simp at hg ht; simp [hg, ht]
+
+/-- a missing onset (or offset) is a `ValueError` -/
+theorem C10_import_segment_missing (o : LabelOpts) (adjust : Bool) (r : Rec) (s : Segment)
+    (h : (s.onsetS = none ∧ s.onsetSample = none) ∨ (s.offsetS = none ∧ s.offsetSample = none)) :
+    importSegment o adjust r s = .error .invalid := by
+  unfold importSegment segTimes fileTime
+  rcases h with ⟨h1, h2⟩ | ⟨h1, h2⟩ <;> simp [h1, h2]
+  cases s.onsetS <;> cases s.onsetSample <;> simp
+
+/-- `bbox_to_annotation`: the geometry is the `BoundingBox` of the scaled coordinates; for a
+    crowsetta box (onset ≤ offset, low ≤ high) and a positive factor no pair is swapped -/
+theorem C10_import_bbox_geometry (o : LabelOpts) (r : Rec) (b : BBox) (a : Ann)
+    (hte : 0 < r.te) (ht : b.onset ≤ b.offset) (hf : b.lowFreq ≤ b.highFreq) :
+    importBBox o true r b = .ok a ↔
+      0 ≤ b.onset ∧ 0 ≤ b.lowFreq ∧ b.highFreq * r.te ≤ MAXF ∧
+      a.geom = some (.boundingBox (b.onset / r.te) (b.lowFreq * r.te) (b.offset / r.te) (b.highFreq * r.te)) ∧
+      labelToTags o b.label = .ok a.tags := by
+  unfold importBBox
+  rw [C10_import_once_box]
+  have hinv : 0 < r.te⁻¹ := Rat.inv_pos.mpr hte
+  have h1 : b.onset / r.te ≤ b.offset / r.te := by
+    rw [Rat.div_def, Rat.div_def]; exact Rat.mul_le_mul_of_nonneg_right ht (Rat.le_of_lt hinv)
+  have h2 : b.lowFreq * r.te ≤ b.highFreq * r.te := Rat.mul_le_mul_of_nonneg_right hf (Rat.le_of_lt hte)
+  have h3 : 0 ≤ b.onset ↔ 0 ≤ b.onset / r.te := by
+    rw [Rat.div_def]
+    constructor
+    · intro h; exact Rat.mul_nonneg h (Rat.le_of_lt hinv)
+    · intro h
+      by_cases hn : 0 ≤ b.onset
+      · exact hn
+      · exfalso
+        have : b.onset * r.te⁻¹ < 0 := by
+          have := Rat.mul_lt_mul_of_pos_right (Rat.not_le.mp hn) hinv
+          simpa using this
+        grind
+  have h4 : 0 ≤ b.lowFreq ↔ 0 ≤ b.lowFreq * r.te := by
+    constructor
+    · intro h; exact Rat.mul_nonneg h (Rat.le_of_lt hte)
+    · intro h
+      by_cases hn : 0 ≤ b.lowFreq
+      · exact hn
+      · exfalso
+        have : b.lowFreq * r.te < 0 := by
+          have := Rat.mul_lt_mul_of_pos_right (Rat.not_le.mp hn) hte
+          simpa using this
+        grind
+  simp only [mkBox]
+  by_cases hv : b.onset / r.te < 0 ∨ b.lowFreq * r.te < 0 ∨ b.lowFreq * r.te > MAXF ∨ b.offset / r.te < 0 ∨
+      b.highFreq * r.te < 0 ∨ b.highFreq * r.te > MAXF
+  · simp only [hv, if_true, bind, Except.bind]
+    constructor
+    · intro h; cases h
+    · rintro ⟨h0, h0', hm, _⟩; exfalso; grind
+  · simp only [hv, if_false, bind, Except.bind]
+    have e1 : ¬ b.onset / r.te > b.offset / r.te := by grind
+    have e2 : ¬ b.lowFreq * r.te > b.highFreq * r.te := by grind
+    simp only [e1, e2, if_false]
+    cases hl : labelToTags o b.label with
+    | error e => simp
+    | ok tags =>
+      simp only [pure, Except.pure, Except.ok.injEq]
+      constructor
+      · rintro rfl; exact ⟨by grind, by grind, by grind, rfl, rfl⟩
+      · rintro ⟨_, _, _, hg, ht⟩
+        cases a; simp at hg ht; simp [hg, ht]
+
+example : importSegment {} true ⟨8000, 10, "rec.wav"⟩ ⟨"a", some 5, some 20, none, none⟩ =
+    .ok ⟨some (.timeInterval (1/2) 2), [⟨termFromKey "crowsetta", "a"⟩]⟩ := by decide +kernel
+example : importSegment {} true ⟨8000, 10, "rec.wav"⟩ ⟨"a", none, none, some 4000, some 16000⟩ =
+    .ok ⟨some (.timeInterval (1/2) 2), [⟨termFromKey "crowsetta", "a"⟩]⟩ := by decide +kernel
+example : importBBox {} true ⟨8000, 10, "rec.wav"⟩ ⟨5, 20, 100, 400, "a"⟩ =
+    .ok ⟨some (.boundingBox (1/2) 1000 2 4000), [⟨termFromKey "crowsetta", "a"⟩]⟩ := by decide +kernel
+example : importBBox {} true ⟨8000, 10, "rec.wav"⟩ ⟨5, 20, 100, 600000, "a"⟩ = .error .invalid := by
+  decide +kernel
 
 end SE.Proofs.C10
